@@ -86,12 +86,13 @@ META = {
         "process: each arrives as TypeAdapter says, type and sign of zero included, whatever was sent before. distinct_nontrivial = distinct "
         "(signature kinds, split, scheme, validate) classes."
         " Name clash: the same task name registered on a shared broker and on the worker's broker with different signatures, either registration order; the local function runs with arguments bound and converted by its own signature."
+        " Every signature with at most two parameters (thorough: all) also behind a functools.wraps pass-through decorator."
     ),
     "assumptions": [
         "ORJSON / MsgPack / CBOR serializers cannot be imported in this image and are not covered",
         "values are drawn from a small JSON-representable alphabet; conversion itself is delegated to pydantic in both code and reference, the oracle is about binding",
     ],
-    "required_counters": ["sends", "converted_params", "unannotated_before_annotated", "roundtrips", "confusable_sends", "name_clash_sends"],
+    "required_counters": ["sends", "converted_params", "unannotated_before_annotated", "roundtrips", "confusable_sends", "name_clash_sends", "wrapped_signatures"],
     "bounds": {"quick": {"max_params": 3, "kw_tail": "<=1 for <=2 params"}, "thorough": {"max_params": 4, "kw_tail": "<=2"}},
 }
 
@@ -256,7 +257,18 @@ def expected_value(kind: str, sent: Any, validate: bool) -> Any:
 SCHEMES = ["conv", "nonconv", "native", "inst", "none", "alt", "falsy", "rep", "rep2"]
 
 
-def run_signature(sig: Tuple[str, str], acc: Acc, sers: List[str]) -> None:
+def _wrap_passthrough(fn: Any) -> Any:
+    """An ordinary pass-through decorator written with functools.wraps (tracing, timing, ...)."""
+    import functools
+
+    @functools.wraps(fn)
+    async def traced(*args: Any, **kwargs: Any) -> Any:
+        return await fn(*args, **kwargs)
+
+    return traced
+
+
+def run_signature(sig: Tuple[str, str], acc: Acc, sers: List[str], wrap: bool = False) -> None:
     from taskiq.abc.broker import AsyncBroker
     from taskiq.abc.middleware import TaskiqMiddleware
     from taskiq.formatters.json_formatter import JSONFormatter
@@ -268,11 +280,15 @@ def run_signature(sig: Tuple[str, str], acc: Acc, sers: List[str]) -> None:
     pos, tail = sig
     rec: List[Any] = []
     fn, names = build_function(pos, tail, rec)
+    refsig_fn = fn
+    if wrap:
+        fn = _wrap_passthrough(fn)
+        acc.count("wrapped_signatures")
     kinds = list(pos) + list(tail)
     real_pos = [j for j, k in enumerate(pos) if k not in "PCQ"]
     first_injected = next((j for j, k in enumerate(pos) if k in "PCQ"), len(pos))
     max_prefix = len([j for j in real_pos if j < first_injected])
-    refsig = inspect.signature(fn)
+    refsig = inspect.signature(refsig_fn)
     if any(k in "uAU" for k in pos[:-1]) and any(k in "isMDdfTN" for k in pos):
         first_un = next(j for j, k in enumerate(pos) if k == "u")if "u" in pos else 99
         if any(k in "isMDdfTN" and j > first_un for j, k in enumerate(pos)):
@@ -354,7 +370,7 @@ def run_signature(sig: Tuple[str, str], acc: Acc, sers: List[str]) -> None:
                         acc.evaluations += 1
                         acc.count("sends")
                         case = {"positional": pos, "kwonly": tail, "scheme": scheme, "prefix": prefix, "omit_default": omit_default,
-                                "validate": validate, "serializer": ser}
+                                "validate": validate, "serializer": ser, "wrapped": wrap}
                         acc.outcome((pos, tail, scheme, prefix, validate))
                         if err is not None or len(rec) != 1:
                             acc.violation("send-or-execute-failed", f"{case}: error={err!r}, executions={len(rec)}", {"case": case})
@@ -618,6 +634,9 @@ def run_shard(shard: Dict[str, Any]) -> Dict[str, Any]:
     sigs = signatures(shard["tier"])
     for sig in sigs[shard["lo"] : shard["hi"]]:
         run_signature(sig, acc, ["json", "pickle"])
+        if len(sig[0]) + len(sig[1]) <= 2 or shard["tier"] == "thorough":
+            # the same task behind a functools.wraps pass-through decorator
+            run_signature(sig, acc, ["json"], wrap=True)
     return acc.as_dict()
 
 
@@ -634,7 +653,7 @@ def replay(obj: Dict[str, Any]) -> int:
             print("oracle:", k, "-", v["message"])
         return 1 if acc.violations else 0
     c = obj["case"]
-    run_signature((c["positional"], c["kwonly"]), acc, [c["serializer"]])
+    run_signature((c["positional"], c["kwonly"]), acc, [c["serializer"]], wrap=bool(c.get("wrapped")))
     for k, v in acc.violations.items():
         print("oracle:", k, "-", v["message"])
     return 1 if acc.violations else 0
